@@ -309,6 +309,17 @@ func ListErrorOf(kind string) error {
 	case "error-nilcause", "error-nilcause-with-list":
 		// an error type with an OPTIONAL cause (juju-style): Cause() returns nil
 		return causeless{"injected: list failed (an error whose Cause() is nil)"}
+	case "error-server-timeout":
+		// API status errors as a typed client returns them for a failed list: the
+		// server's own timeout (500, reason ServerTimeout, "retry later") ...
+		return apierrors.NewServerTimeout(schema.GroupResource{Resource: "pods"}, "list", 2)
+	case "error-gateway-timeout":
+		// ... a 504 from something in between ...
+		return apierrors.NewTimeoutError("injected: request did not complete within the allotted timeout", 1)
+	case "error-too-many-requests":
+		return apierrors.NewTooManyRequests("injected: slow down", 5)
+	case "error-forbidden":
+		return apierrors.NewForbidden(schema.GroupResource{Resource: "pods"}, "", errors.New("injected: forbidden"))
 	case "error-aggregate":
 		// an aggregate (slice-typed, hence uncomparable) error, as
 		// utilerrors.NewAggregate returns it
@@ -482,7 +493,7 @@ func (s *Server) List(ctx context.Context, opts metav1.ListOptions) (runtime.Obj
 	case "error-nilcause-with-list":
 		call.Outcome = "error"
 		return BuildTypedList(s.Kind, "", nil), ListErrorOf(script)
-	case "error-timeout", "error-canceled", "error-canceled-bare", "error-deadline-bare", "error-notrunning", "error-notrunning-wrapped", "error-nilcause", "error-aggregate":
+	case "error-timeout", "error-canceled", "error-canceled-bare", "error-deadline-bare", "error-notrunning", "error-notrunning-wrapped", "error-nilcause", "error-aggregate", "error-server-timeout", "error-gateway-timeout", "error-too-many-requests", "error-forbidden":
 		// a failed list is fatal whatever the error value looks like - also when
 		// it is, or wraps, a context error that is not the caller's own cancellation
 		call.Outcome = "error"
